@@ -517,3 +517,29 @@ func genCarry(t *rapid.T) ([]byte, string) {
 	}
 	return b, "carry"
 }
+
+// TestC05_LongTailToken: a dense prefix of about m x 1408 structurals followed by one long final token that runs to the end
+// of the input (unterminated or closed string, long number, garbage word): the token is the index stage 1 strips from a
+// full index buffer and carries over, and nothing but its continuation follows.
+func TestC05_LongTailToken(t *testing.T) {
+	idx := 0
+	tails := []string{`"` + strings.Repeat("s", 200), `"` + strings.Repeat("s", 120) + `"`, strings.Repeat("7", 150), strings.Repeat("x", 90), `"` + strings.Repeat("q", 70) + `"]`, `tru` + strings.Repeat("e", 80)}
+	for m := 1; m <= 3; m++ {
+		for dk := -4; dk <= 4; dk++ {
+			for pad := 0; pad < 64; pad++ {
+				if !thorough() && (pad+dk+m)%2 != 0 {
+					continue
+				}
+				for ti, tail := range tails {
+					idx++
+					if idx%envNShards != envShard {
+						continue
+					}
+					in := []byte("[" + strings.Repeat("1,", 704*m-1+dk) + strings.Repeat(" ", pad) + tail)
+					c05Eval(t, hostileCase{In: in, ND: (idx+ti)%4 == 0, Guard: idx % 3}, "long-tail-token")
+				}
+			}
+		}
+	}
+	col("C05").Completed("TestC05_LongTailToken")
+}
